@@ -69,45 +69,63 @@ func (fc *FnCtx) smallModelHints() []string {
 }
 
 func (fc *FnCtx) queryWith(ob *Obligation, axiomEnc bool, withModel bool, extra []string) string {
+	var body strings.Builder
+	for _, a := range fc.globals {
+		body.WriteString("(assert " + a + ")\n")
+	}
+	for _, a := range fc.asserts[:ob.Prefix] {
+		body.WriteString("(assert " + a + ")\n")
+	}
+	for _, a := range extra {
+		body.WriteString("(assert " + a + ")\n")
+	}
+	goal := implies(ob.Guard, ob.Cond)
+	if ob.Expect == "sat" {
+		body.WriteString("(assert " + goal + ")\n")
+	} else {
+		body.WriteString("(assert (not " + goal + "))\n")
+	}
+	text := body.String()
+	// cited lemmas are included only where all the spec functions they speak about are in play
+	var lem strings.Builder
+	for _, la := range fc.lemmaAsserts {
+		ok := true
+		for _, sy := range la.specs {
+			if !strings.Contains(text, sy+" ") && !strings.Contains(text, sy+")") {
+				ok = false
+			}
+		}
+		if ok {
+			lem.WriteString("(assert " + la.text + ")\n")
+		}
+	}
+	text = lem.String() + text
 	var sb strings.Builder
 	sb.WriteString("; obligation " + ob.Name + "\n")
 	if withModel {
 		sb.WriteString("(set-option :produce-models true)\n")
 	}
 	sb.WriteString("(set-logic ALL)\n")
-	specs := fc.specDF
-	if axiomEnc {
-		specs = fc.specAX
-	}
 	for _, h := range helperDefs(fc.helpers) {
 		sb.WriteString(h + "\n")
 	}
 	for _, d := range fc.decls {
 		sb.WriteString(d + "\n")
 	}
-	for _, s := range specs {
+	for _, s := range fc.specText(text, axiomEnc) {
 		sb.WriteString(s + "\n")
 	}
-	for _, a := range fc.globals {
-		sb.WriteString("(assert " + a + ")\n")
-	}
-	for _, a := range fc.asserts[:ob.Prefix] {
-		sb.WriteString("(assert " + a + ")\n")
-	}
-	for _, a := range extra {
-		sb.WriteString("(assert " + a + ")\n")
-	}
-	goal := implies(ob.Guard, ob.Cond)
-	if ob.Expect == "sat" {
-		sb.WriteString("(assert " + goal + ")\n")
-	} else {
-		sb.WriteString("(assert (not " + goal + "))\n")
-	}
+	sb.WriteString(text)
 	sb.WriteString("(check-sat)\n")
 	if withModel && len(fc.inputs) > 0 {
 		sb.WriteString("(get-value (" + strings.Join(fc.modelTerms(), " ") + "))\n")
 	}
 	return sb.String()
+}
+
+type lemmaAssert struct {
+	text  string
+	specs []string
 }
 
 func (fc *FnCtx) modelTerms() []string {
@@ -257,6 +275,31 @@ func (e *Engine) discharge(ob *Obligation, idx int) {
 			}
 		}
 		return
+	}
+	// last resort: split on the incoming edges of the obligation's block (each case is a smaller problem)
+	if len(ob.Cases) > 1 && len(ob.Cases) <= 8 {
+		all := true
+		for ci, c := range ob.Cases {
+			fq := base + fmt.Sprintf(".case%d.smt2", ci)
+			os.WriteFile(fq, []byte(fc.queryWith(ob, false, false, []string{c})), 0o644)
+			r, _, _ := runSolver(solvers[0], fq, e.timeout)
+			if r != "unsat" {
+				r, _, _ = runSolver(solvers[1], fq, e.timeout)
+			}
+			if r != "unsat" && fc.hasQuantOrSpec() {
+				os.WriteFile(fq, []byte(fc.queryWith(ob, true, false, []string{c})), 0o644)
+				r, _, _ = runSolver(solvers[0], fq, e.timeout)
+			}
+			if r != "unsat" {
+				all = false
+				break
+			}
+			os.Remove(fq)
+		}
+		if all {
+			ob.Status, ob.Solver, ob.Time = "proved", "z3-new/cvc5 (case split on block entry edges)", time.Since(t0).Seconds()
+			return
+		}
 	}
 	ob.Status = "unknown"
 }
